@@ -120,6 +120,14 @@ def unichan_fmt(o):
         return "Dv(%d, %d)" % (o["s"], o.get("max", 9))
     if n == "cancel_all":
         return "X"
+    if n == "reserve":
+        return "Rs"
+    if n == "fill":
+        return "Fi(%d, %d)" % (o["i"] + 1, o["v"])
+    if n == "send_reserved":
+        return "Sr(%d)" % (o["i"] + 1)
+    if n == "cancel_reserved":
+        return "Cr(%d)" % (o["i"] + 1)
     if n == "close":
         return "Cl"
     if n == "drop_stream":
